@@ -193,8 +193,32 @@ Theorem c13_shuffle_rows : forall m nr nc order,
 Proof. exact shuffle_rows_exact. Qed.
 Print Assumptions c13_shuffle_rows.
 
+(* ---- subset_csc_h5ad_columns.  The input is CSC: its major slices are the columns
+   (wf_csr m n_cols n_rows: n_cols + 1 pointers, row indices below n_rows).  For EVERY
+   list of columns below n_cols (the correspondence check drives non-empty
+   duplicate-free lists; a repeated column is simply kept as often as it is listed) the
+   function returns a well-formed CSC matrix with one column per chosen column, and
+   with cs = the chosen columns in increasing order (np.sort: sorted, a permutation of
+   the list)
+   - the stored entries of output column i (row indices and values, in storage order)
+     are exactly those of input column cs[i]: values intact;
+   - hence cell (row r, new column i) = cell (row r, old column cs[i]) for every r, and
+     the column-major dense view consists of exactly the chosen columns, in order. *)
+Theorem c13_subset_columns : forall m n_cols n_rows chosen,
+  wf_csr m n_cols n_rows -> Forall (fun c => c < n_cols) chosen ->
+  let cs := sort_by (fun x => x) chosen in
+  let k := length chosen in
+  Sorted le cs /\ Permutation cs chosen /\
+  exists out, subset_columns m chosen = Ok out /\
+    wf_csr out k n_rows /\
+    (forall i, i < k -> row_entries out i = row_entries m (nth i cs 0)) /\
+    (forall i r, i < k -> cell out i r = cell m (nth i cs 0) r) /\
+    dense_of out k n_rows = map (fun c => nth c (dense_of m n_cols n_rows) []) cs /\
+    (no_dup_minor m -> no_dup_minor out).
+Proof. exact subset_columns_exact. Qed.
+Print Assumptions c13_subset_columns.
+
 (* NOT YET PROVED (statements kept; the correspondence check covers them by testing):
-   c13_subset_columns  : the same for subset_columns with the sorted chosen columns
    c13_amalgamate      : amalgamate_csr pieces n = Ok out ->
        dense_of out = concatenation of the dense views of the pieces *)
 
@@ -278,4 +302,18 @@ Proof.
     apply (perm_trans (l' := [2; 1; 3])); [apply perm_skip, perm_swap|].
     apply (perm_trans (l' := [1; 2; 3])); [apply perm_swap | apply Permutation_refl].
   - vm_compute. split; reflexivity.
+Qed.
+
+(* subset_columns: c13_ex as the CSC matrix it is (4 columns, 3 rows) and the columns
+   [3; 0] satisfy the hypotheses of c13_subset_columns; they are kept in increasing order *)
+Example c13_example_subset :
+  wf_csr c13_ex 4 3 /\ Forall (fun c => c < 4) [3; 0] /\
+  sort_by (fun x => x) [3; 0] = [0; 3] /\
+  subset_columns c13_ex [3; 0] =
+    Ok {| ptr := [0; 2; 4]; idx := [0; 2; 0; 2]; dat := [5; 6; 8; 9]%Z |}.
+Proof.
+  destruct c13_example_wf as (W & HP & HD & _).
+  split; [split; [exact W | split; [exact HP | exact HD]]|].
+  split; [repeat (apply Forall_cons; [lia|]); apply Forall_nil|].
+  vm_compute. split; reflexivity.
 Qed.
